@@ -444,6 +444,14 @@ class Script:
         return "\n".join(L) + "\n"
 
 
+# Solver budgets are RESOURCE limits (deterministic: the same query gets the same verdict whatever the machine load);
+# the nominal "seconds" of a budget are converted with the idle-machine rates measured here (cvc5 ~75k units/s, z3 ~1M
+# units/s) times two.  Wall-clock limits are only a safety net, WALL_FACTOR times the nominal budget.
+CVC5_RLIMIT_PER_S = 150000
+Z3_RLIMIT_PER_S = 2000000
+WALL_FACTOR = 8
+
+
 def run_solver(text, backend, timeout_s):
     """-> (stdout, seconds). Never raises on solver failure."""
     fd, path = tempfile.mkstemp(suffix=".smt2", prefix="vc_")
@@ -451,13 +459,15 @@ def run_solver(text, backend, timeout_s):
         with os.fdopen(fd, "w") as f:
             f.write(text)
         if backend == "z3":
-            cmd = [Z3, "-smt2", f"-T:{int(timeout_s)}", "model_evaluator.completion=true", path]
+            cmd = [Z3, "-smt2", f"-T:{int(timeout_s * WALL_FACTOR)}", f"rlimit={int(timeout_s * Z3_RLIMIT_PER_S)}",
+                   "model_evaluator.completion=true", path]
         else:
             cmd = [CVC5, "--strings-exp", "--incremental", "--produce-models",
-                   f"--tlimit-per={int(timeout_s * 1000)}", path]
+                   f"--rlimit-per={int(timeout_s * CVC5_RLIMIT_PER_S)}",
+                   f"--tlimit-per={int(timeout_s * WALL_FACTOR * 1000)}", path]
         t0 = time.time()
         try:
-            p = subprocess.run(cmd, capture_output=True, text=True, timeout=timeout_s * 8 + 30)
+            p = subprocess.run(cmd, capture_output=True, text=True, timeout=timeout_s * WALL_FACTOR * 8 + 30)
             out = p.stdout + ("\n;stderr: " + p.stderr if p.stderr.strip() else "")
         except subprocess.TimeoutExpired:
             out = "timeout"
@@ -481,13 +491,14 @@ def run_portfolio(text_by_backend, per_query_s, total_s, decisive):
             f.write(text)
         files.append(path)
         if backend == "z3":
-            cmd = [Z3, "-smt2", "model_evaluator.completion=true", path]
+            cmd = [Z3, "-smt2", f"rlimit={int(per_query_s * Z3_RLIMIT_PER_S)}", "model_evaluator.completion=true", path]
         else:
             cmd = [CVC5, "--strings-exp", "--incremental", "--produce-models",
-                   f"--tlimit-per={int(per_query_s * 1000)}", path]
+                   f"--rlimit-per={int(per_query_s * CVC5_RLIMIT_PER_S)}",
+                   f"--tlimit-per={int(per_query_s * WALL_FACTOR * 1000)}", path]
         procs[backend] = subprocess.Popen(cmd, stdout=subprocess.PIPE, stderr=subprocess.DEVNULL, text=True)
     outs = {}
-    deadline = t0 + total_s + 2
+    deadline = t0 + total_s * WALL_FACTOR + 2
     try:
         while procs and time.time() < deadline:
             for b, p in list(procs.items()):
